@@ -52,7 +52,7 @@ SideCondition(p, N, a) ==
 NewVarCount(p, N) ==
     CASE p.kind \in BlockKinds -> p.k * N
       [] p.kind = "ite"  -> 3 * N
-      [] p.kind = "flip" -> N
+      [] p.kind \in {"flip", "shuffle", "none"} -> N
       [] p.kind = "lift" -> 2 * p.k * N
       [] p.kind \in {"xorcomp", "majcomp"} -> p.graph.R
 
